@@ -718,8 +718,9 @@ def oracle(sim: Sim, plan: dict) -> list[dict]:
             if cs is None:
                 continue
             rb = reg_begin.get(d["cb"])
-            if rr[0] < s["call"][0]:
-                # registered before the task was started: must wait for task + its context
+            if rr[0] < reg_seq:
+                # registered before the task was up (start_service_task had not returned yet):
+                # must wait for task + its context
                 if last_task_seq is not None and cs[0] < last_task_seq:
                     v(
                         "C08.order",
